@@ -16,7 +16,7 @@ from ..core import guarded
 
 ID = "C20"
 TECHNIQUE = 'exhaustive enumeration of (size,start,length,rank) + Hypothesis-generated ranges/APIs against the definition of an exact balanced partition; simulated ranks'
-LEVEL = '(Reductions also with the library routine called from inside a parallel region of the caller: nothing is redistributed at the second level.) Every (process count, start, length, rank) on a finite grid is enumerated completely and larger configurations are sampled with Hypothesis; blocks from _calculate_ranges and block_distributed_range/list/array (with and without return_index) are compared with the definition of a contiguous, disjoint, balanced cover, and per-rank partial sums are added and compared with the serial result.'
+LEVEL = '(Reductions also with the library routine called from inside a parallel region of the caller: nothing is redistributed at the second level.) Every (process count, start, length, rank) on a finite grid is enumerated completely and larger configurations are sampled with Hypothesis; blocks from _calculate_ranges and block_distributed_range/list/array (with and without return_index) are compared with the definition of a contiguous, disjoint, balanced cover, and per-rank partial sums are added and compared with the serial result. Later additions: nested regions, preceding loops on a re-used configuration, two-pass all-reduce of the operator-form tensor.'
 NOTE = 'Ranks are simulated by setting attributes on the DistributedConfiguration; no real MPI schedule. Beyond the grid the claim is sampled, not exhaustive.'
 EXHAUSTIVE = True
 RULE = ("grid: every (size, start, length) with size in 1..12 (quick) / 1..32 (thorough), start in -5..40, "
